@@ -472,23 +472,25 @@ theorem inplace_writer_tears_record :
 
 /-- Regenerated obligation: the complete list of call sites in martian/ and
 cmd/ (tests and verif hooks excluded) that write the `_outs` metadata file —
-(site, Metadata method, atomic?, next publishing call in the same function).
-`atomic` is derived from the BODY of the method (it reaches `writeAtomicAt` and
-no `os.WriteFile`/`OpenFile`/`Create`), not from its name.  A new writer, a
+(site, Metadata method, atomic?, next publishing call in the same function,
+last publishing call that definitely precedes the write).
+`atomic` is derived from the BODY of the method (least fixpoint over the call
+graph of metadata.go / write_atomic_linux.go: it reaches `writeAtomicAt` and no
+`os.WriteFile`/`OpenFile`/`Create`), not from its name.  A new writer, a
 writer changed from atomic to in-place (or the reverse), or a write moved
 behind its completion marker changes this list. -/
 theorem outs_writers_enumerated :
     Gen.allOutsWriters =
-      [("martian/adapter/adapter.go:runMain", "Write", false, "UpdateJournal(OutsFile)"),
-       ("martian/core/post_process.go:Fork.postProcess", "WriteAtomic", true, ""),
-       ("martian/core/stage.go:Chunk.step", "Write", false, "runChunk"),
-       ("martian/core/stage.go:Fork.writeDisable", "Write", false, "skip"),
-       ("martian/core/stage.go:Fork.doJoin", "Write", false, "runJoin"),
-       ("martian/core/stage.go:Fork.doJoin", "WriteRawBytes", false, "WriteTime(CompleteFile)"),
-       ("martian/core/stage.go:Fork.doComplete", "WriteRaw", false, "WriteTime(CompleteFile)"),
-       ("martian/core/stage.go:Fork.doComplete", "Write", false, "WriteTime(CompleteFile)"),
-       ("martian/core/stage.go:Fork.doComplete", "WriteRaw", false, "WriteTime(CompleteFile)"),
-       ("martian/core/stage.go:Fork.stepPipeline", "Write", false, "WriteTime(CompleteFile)")] := by decide
+      [("martian/adapter/adapter.go:runMain", "Write", false, "UpdateJournal(OutsFile)", ""),
+       ("martian/core/post_process.go:Fork.postProcess", "WriteAtomic", true, "", ""),
+       ("martian/core/stage.go:Chunk.step", "Write", false, "runChunk", ""),
+       ("martian/core/stage.go:Fork.writeDisable", "Write", false, "skip", ""),
+       ("martian/core/stage.go:Fork.doJoin", "Write", false, "runJoin", ""),
+       ("martian/core/stage.go:Fork.doJoin", "WriteRawBytes", false, "WriteTime(CompleteFile)", ""),
+       ("martian/core/stage.go:Fork.doComplete", "WriteRaw", false, "WriteTime(CompleteFile)", ""),
+       ("martian/core/stage.go:Fork.doComplete", "Write", false, "WriteTime(CompleteFile)", ""),
+       ("martian/core/stage.go:Fork.doComplete", "WriteRaw", false, "WriteTime(CompleteFile)", ""),
+       ("martian/core/stage.go:Fork.stepPipeline", "Write", false, "WriteTime(CompleteFile)", "")] := by decide
 
 /-- What the list says, as checkable consequences: (1) the only atomic writer
 is the post-processing rewrite, and it is the only writer that REPLACES the
@@ -496,15 +498,17 @@ record of an already completed fork (no publishing call follows it);
 (2) every in-place writer is followed, in the same function, by the call that
 publishes the record or starts the job that overwrites it (`WriteTime` of the
 completion marker, `skip` = `WriteTime(DisabledFile)`, `UpdateJournal(OutsFile)`
-in the job's adapter, `runChunk`/`runJoin`): the in-place write of a record
-strictly precedes its completion marker, so a reader that waits for the marker
-never sees it half written; (3) the derived atomicity agrees with the
-classification by name used by `outs_rewrite_is_atomic`. -/
+in the job's adapter, `runChunk`/`runJoin`), and NO writer is preceded by such a
+call on its own control path: the in-place write of a record strictly precedes
+its completion marker, so a reader that waits for the marker never sees it half
+written; (3) the derived atomicity agrees with the classification by name used
+by `outs_rewrite_is_atomic`. -/
 theorem outs_writers_atomic_or_before_marker :
     (Gen.allOutsWriters.filter (fun w => w.2.2.1)).map (fun w => (w.1, w.2.1)) =
       [("martian/core/post_process.go:Fork.postProcess", "WriteAtomic")] ∧
-    (∀ w ∈ Gen.allOutsWriters, w.2.2.1 = false → w.2.2.2 ≠ "") ∧
-    (∀ w ∈ Gen.allOutsWriters, w.2.2.2 = "" → w.2.2.1 = true) ∧
+    (∀ w ∈ Gen.allOutsWriters, w.2.2.1 = false → w.2.2.2.1 ≠ "") ∧
+    (∀ w ∈ Gen.allOutsWriters, w.2.2.2.1 = "" → w.2.2.1 = true) ∧
+    (∀ w ∈ Gen.allOutsWriters, w.2.2.2.2 = "") ∧
     (∀ w ∈ Gen.allOutsWriters,
       writerOfName w.2.1 = some (if w.2.2.1 then RecordWriter.atomic else RecordWriter.inplace)) := by decide
 
